@@ -31,6 +31,15 @@ func (o segOracle) tokens() string {
 
 // shadowOracle walks the records the way SplitAt does, only to know which positions fall into which
 // segment, and asks the real code for dT / invL / the centre form. ok=false if a length is unusable.
+// branchCount, when set, receives the branches of SplitAt the shadow walk sees
+var branchCount func(string)
+
+func branch(k string) {
+	if branchCount != nil {
+		branchCount("splitat-corr branch:" + k)
+	}
+}
+
 func shadowOracle(rs []rec, tsIn []float64) (os []segOracle, ok bool) {
 	ts := append([]float64{}, tsIn...)
 	sort.Float64s(ts)
@@ -68,15 +77,34 @@ func shadowOracle(rs []rec, tsIn []float64) (os []segOracle, ok bool) {
 			if math.IsNaN(o.dT) || math.IsInf(o.dT, 0) {
 				return nil, false
 			}
+			if j < len(ts) && !(T < ts[j]) {
+				branch("position-not-beyond-T(blocks)")
+			}
 			for j < len(ts) && T < ts[j] && ts[j] <= T+o.dT {
+				branch("cut-in-" + string(r.k))
+				if ts[j] == T+o.dT {
+					branch("cut-exactly-at-segment-end")
+				}
 				if invL != nil {
-					o.inv = append(o.inv, invL(ts[j]-T))
+					v := invL(ts[j] - T)
+					if n := len(o.inv); n > 0 && ((r.k != 'A' && v < o.inv[n-1]) || (r.k == 'A' && (o.th1 <= o.th2) == (v < o.inv[n-1]))) {
+						branch("inverse-not-monotone-" + string(r.k))
+					}
+					if r.k != 'A' && math.Abs(v-1) <= 1e-10 {
+						branch("remainder-skipped(t0==1)")
+					}
+					o.inv = append(o.inv, v)
 				} else {
 					o.inv = append(o.inv, 0) // lines: only the count matters
 				}
 				j++
 			}
 			T += o.dT
+			if len(o.inv) == 0 {
+				branch("segment-without-cut")
+			}
+		} else {
+			branch("copy-after-last-position")
 		}
 		os = append(os, o)
 		start = end
@@ -85,6 +113,8 @@ func shadowOracle(rs []rec, tsIn []float64) (os []segOracle, ok bool) {
 }
 
 func corrSplitAt(c *hc.Ctx) {
+	branchCount = c.Count
+	defer func() { branchCount = nil }()
 	for it := 0; it < 2*c.N; it++ {
 		kinds := []string{"L", "LZ", "LQC", "LQCA", "QC", "A", "LQCAZ", "LA"}[c.Intn(8)]
 		p := c.GenPath(kinds, 4, 1+c.Intn(3))
@@ -102,6 +132,7 @@ func corrSplitAt(c *hc.Ctx) {
 		for i := 0; i < m; i++ {
 			ts = append(ts, L*c.Range(0, 1.05))
 		}
+		empty := c.Chance(0.02) // SplitAt() without positions returns the path itself
 		switch c.Intn(8) {
 		case 0:
 			ts = append(ts, 0)
@@ -109,6 +140,14 @@ func corrSplitAt(c *hc.Ctx) {
 			ts = append(ts, ts[0]+L*c.Range(0.0005, 0.003)) // close pair
 		case 2:
 			ts = append(ts, ts[0]) // duplicate
+		case 4:
+			if c.Chance(0.4) {
+				ts = append(ts, -L*c.Range(0.01, 0.3)) // outside [0, Length]: suppresses every cut
+			}
+		case 5:
+			if c.Chance(0.4) {
+				ts = append(ts, 0, 0) // only one leading 0 is dropped
+			}
 		case 3:
 			// a position exactly at a vertex of a leading polyline
 			if rs[1].k == 'L' {
@@ -116,6 +155,10 @@ func corrSplitAt(c *hc.Ctx) {
 				x1, y1 := rs[1].end()
 				ts = append(ts, math.Hypot(x1-x0, y1-y0))
 			}
+		}
+		if empty {
+			ts = ts[:0]
+			c.Count("splitat-corr branch:no-positions")
 		}
 		hasArc, nsub := false, 0
 		for _, r := range rs {
